@@ -75,8 +75,54 @@ def f19_corpus():
                oracle_fail=msg, sig="live-not-registered|op=asobj|ds=1")
 
 
+def directed_registry_cases(rng, n):
+    """short fixed-shape histories around twins, shared children and multiple inheritance; evaluated with the
+    statement itself (every live, never detached node is returned under its id; detached ones are not)"""
+    import gc
+    from pyoak.node import NODE_REGISTRY, ASTNode
+    import zoo
+    for _ in range(n):
+        gc.collect()
+        NODE_REGISTRY.clear()
+        v = rng.randint(0, 3)
+        fail = None
+        # (a) a leaf shared by two trees; detach one tree, create a twin of the leaf (it takes the freed id), detach the other
+        leaf = zoo.Leaf(v=v)
+        t1, t2 = zoo.Un(leaf), zoo.Tup((leaf, zoo.Leaf(v=v + 1)))
+        t1.detach()
+        twin = zoo.Leaf(v=v)
+        t2.detach()
+        if ASTNode.get_any(twin.id) is not twin:
+            fail = "a live, never detached twin was evicted by detach() of a tree that does not contain it"
+        elif ASTNode.get_any(leaf.id) is leaf:
+            fail = "a detached node is still returned"
+        # (b) multiple inheritance: children stored in the second base's field are detached with the tree
+        if fail is None:
+            a, b = zoo.Leaf(v=10 + v), zoo.Leaf(v=20 + v)
+            both = zoo.MBoth(lv=v, lk=a, rv=v, rk=b)
+            wrap = zoo.Un(both) if rng.random() < 0.5 else both
+            wrap.detach()
+            for x in (a, b, both):
+                if ASTNode.get_any(x.id) is x:
+                    fail = f"detached {type(x).__name__} below a multiply-inheriting node is still returned by the registry"
+        # (c) detach the same tree twice while a twin tree was created in between
+        if fail is None:
+            p = zoo.Bin(zoo.Leaf(v=30 + v), zoo.Leaf(v=40 + v))
+            p.detach()
+            q = zoo.Bin(zoo.Leaf(v=30 + v), zoo.Leaf(v=40 + v))
+            p.detach()
+            for x in [q] + q.children:
+                if ASTNode.get_any(x.id) is not x:
+                    fail = "detaching an already detached tree evicted a live twin tree"
+        yield Case("directed", None, None, True, f"shared leaf / MBoth / double detach with v={v}", oracle_fail=fail,
+                   sig="registry|directed|" + (fail or "")[:40])
+    gc.collect()
+    NODE_REGISTRY.clear()
+
+
 def cases(rng: random.Random, tier: str):
     yield from f19_corpus()
+    yield from directed_registry_cases(rng, 10 if tier == "quick" else 200)
     n = 150 if tier == "quick" else 4000
     for _ in range(n):
         size = rng.choice([8, 8, 8, 2, 2, 1])
